@@ -319,6 +319,16 @@ func (r *Report) Finish(levelText string, assumptions []string) int {
 		"notes":               r.Notes,
 		"exhaustive":          true,
 	}
+	// the claim as registered in MANIFEST.json (tools/claims.json), which lists every rule including those
+	// added after the rule set's first description above
+	if b, err := os.ReadFile(filepath.Join(root, "tools", "claims.json")); err == nil {
+		var cl map[string]struct {
+			Text string `json:"text"`
+		}
+		if json.Unmarshal(b, &cl) == nil && cl[r.Prop].Text != "" {
+			cov["claim"] = cl[r.Prop].Text
+		}
+	}
 	for k, v := range r.Extra {
 		cov[k] = v
 	}
